@@ -551,7 +551,7 @@ class BIPForeign(BIPSAP, Client, Server, OneShotTask, DebugContents):
             ### make sure we have a bind request in process
 
             # make sure the result is from the bbmd
-            if pdu.pduSource != self.bbmdAddress:
+            if (self.bbmdAddress is None) or (pdu.pduSource != self.bbmdAddress):
                 if _debug: BIPForeign._debug("    - packet dropped, not from the BBMD")
                 return
 
